@@ -64,6 +64,15 @@ let dec_of_n (x : n) : ostring =
     String.init (String.length s) (fun i -> s.[String.length s - 1 - i])
   end
 
+(* signed decimals <-> Z *)
+let z_of_dec (s : ostring) : z =
+  if String.length s > 0 && s.[0] = '-' then
+    (match n_of_dec (String.sub s 1 (String.length s - 1)) with N0 -> Z0 | Npos p -> Zneg p)
+  else (match n_of_dec s with N0 -> Z0 | Npos p -> Zpos p)
+
+let dec_of_z (x : z) : ostring =
+  match x with Z0 -> "0" | Zpos p -> dec_of_n (Npos p) | Zneg p -> "-" ^ dec_of_n (Npos p)
+
 (* ---------- hex ---------- *)
 
 let hexd = "0123456789abcdef"
@@ -133,6 +142,7 @@ let as_bytes = function X s -> bytes_of_string s | _ -> failwith "expected bytes
 let as_list = function L l -> l | _ -> failwith "expected list"
 let as_int = function Nn s -> int_of_string s | _ -> failwith "expected number"
 let as_n = function Nn s -> n_of_dec s | _ -> failwith "expected number"
+let as_z = function Nn s -> z_of_dec s | _ -> failwith "expected number"
 let as_sym = function Sy s -> s | _ -> failwith "expected symbol"
 let of_bytes (l : byte list) : sexp = X (string_of_bytes l)
 let of_n (x : n) : sexp = Nn (dec_of_n x)
@@ -218,7 +228,38 @@ let op_parse_token = function
        | _ -> failwith "parse_token: footer type")
   | _ -> failwith "parse_token: arity"
 
+(* validators *)
+let as_opt f = function Sy "none" -> None | L [Sy "some"; v] -> Some (f v) | _ -> failwith "expected option"
+let as_claims = function
+  | L [i; s; a; e; n; t; j] ->
+      { iss = as_opt as_bytes i; sub0 = as_opt as_bytes s; aud = as_opt as_bytes a;
+        exp = as_opt as_z e; nbf = as_opt as_z n; iat = as_opt as_z t; jti = as_opt as_bytes j }
+  | _ -> failwith "claims"
+let rec as_validator (v : sexp) : validator =
+  match v with
+  | L [Sy "time"; n] -> VTime (as_z n)
+  | L [Sy "leeway"; n; l] -> VTimeLeeway (as_z n, as_z l)
+  | L [Sy "hasexp"] -> VHasExpiry
+  | L [Sy "sub"; s] -> VForSubject (as_bytes s)
+  | L [Sy "iss"; s] -> VFromIssuer (as_bytes s)
+  | L [Sy "aud"; s] -> VForAudience (as_bytes s)
+  | L [Sy "none"] -> VNoValidation
+  | L [Sy "and"; a; b] -> VAndThen (as_validator a, as_validator b)
+  | L (Sy "slice" :: l) -> VSlice (List.map as_validator l)
+  | L (Sy "vec" :: l) -> VVec (List.map as_validator l)
+  | L [Sy "box"; a] -> VBox (as_validator a)
+  | L [Sy "rc"; a] -> VRc (as_validator a)
+  | L [Sy "arc"; a] -> VArc (as_validator a)
+  | L [Sy "map"; k; a] -> VMap (nat_of_int (as_int k), as_validator a)
+  | _ -> failwith "validator"
+let op_validate = function
+  | [v; c] -> of_result (fun () -> Sy "unit") (validate (as_validator v) (as_claims c))
+  | _ -> failwith "validate: arity"
+let op_ts_range = function _ -> L [Nn (dec_of_z ts_min); Nn (dec_of_z ts_max)]
+
 let ops : (ostring * (sexp list -> sexp)) list ref = ref [
+  "validate", op_validate;
+  "ts_range", op_ts_range;
   "b64enc", op_b64enc;
   "b64dec", op_b64dec;
   "b64dec_fixed", op_b64dec_fixed;
